@@ -26,7 +26,9 @@
   re-instantiated for another photon number), `fixes/C05-mps-cutoff.diff` (`_compile` does not overwrite
   the requested cut-off; `set_cutoff` recompiles), `fixes/C05-stepper-filter.diff` (photon filter is part
   of the Stepper's compiled key), `fixes/C05-simulator-mask-mode.diff` (`init_use_mask` invalidates the
-  evolve cache when the mask mode changes) (`true`, the main model).
+  evolve cache when the mask mode changes), `fixes/C05-simulator-evolve-mask-mode.diff` (`evolve` sets the
+  mask mode itself) (`true`, the main model).  Outside the model: `fixes/C05-simulator-leftover-mask.diff`,
+  `fixes/C05-processor-precision.diff`, `fixes/C05-experiment-set-circuit.diff`.
 
   Not modelled (assumptions, exercised by the correspondence): the numbers themselves (exqalibur kernels,
   numpy); `FSMask`/`FSArray` contents (a mask instance is identified by `(sid, n)`, an array by
@@ -477,7 +479,10 @@ def stepSi (fixed : Bool) (s : Si) : SiOp → Si × SiOut
     match s.circ with
     | none => (s, .exc "NoCircuit")
     | some c =>
-      let (s2, parts) := evolveAll s c keys
+      -- fixed code: `evolve` sets the mask mode itself (`init_use_mask(True)`, as `evolve_svd` does);
+      -- the pinned tree inherits the mode of the last `probs_svd` / `evolve_svd`
+      let s1 := if fixed then initUseMask fixed s true else s
+      let (s2, parts) := evolveAll s1 c keys
       (s2, siAnswer s2 parts)
 
 structure SiCfg where
